@@ -30,6 +30,11 @@ let register (reg : string -> (string list -> string) -> unit) : unit =
     | [w; h; nc; p; sg; lv; cbw; cbh; mct; ord; pix] ->
       outcome hex_of_bytes (PipeModel.pipe_encode_tile (pp w h nc p sg lv cbw cbh mct ord) (bytes_of_hex pix))
     | _ -> "?");
+  (* pipe_encode_cs <params> hexpixels -> ok:hex(whole codestream SOC..EOC) *)
+  reg "pipe_encode_cs" (fun a -> match a with
+    | [w; h; nc; p; sg; lv; cbw; cbh; mct; ord; pix] ->
+      outcome hex_of_bytes (PipeModel.pipe_encode (pp w h nc p sg lv cbw cbh mct ord) (bytes_of_hex pix))
+    | _ -> "?");
   (* pipe_decode <params> hextile -> ok:hex(pixel bytes, GetPixelData) *)
   reg "pipe_decode" (fun a -> match a with
     | [w; h; nc; p; sg; lv; cbw; cbh; mct; ord; tile] ->
